@@ -36,6 +36,8 @@ struct Worlds {
     std::shared_ptr<Dispatcher> shared_disp;
     uint32_t own_threads = 1;
     std::ostringstream out;
+    // measured amount of oracle work (printed as the last line, `stats ...`)
+    size_t n_ops = 0, n_frame = 0, n_foreign = 0, n_own = 0, n_worlds = 0, max_live = 0, max_id = 0;
 
     WorldContext makeContext(bool shared, std::shared_ptr<Dispatcher>& disp) {
         WorldContext ctx;
@@ -113,8 +115,11 @@ struct Worlds {
 
     // the property oracle on the implementation; `operated` = ordinal of the world the op was addressed to (-1: none)
     void oracle(int operated) {
+        ++n_ops;
+        max_live = std::max(max_live, live.size());
         for (size_t k : live) {
             std::string now = observe(*ws[k].d);
+            if (static_cast<int>(k) != operated) ++n_frame;
             if (static_cast<int>(k) != operated && now != ws[k].last) {
                 out << "ORACLE frame: world " << k << " changed by an op on world " << operated << ": " << firstDiff(ws[k].last, now) << "\n";
             }
@@ -125,6 +130,7 @@ struct Worlds {
                 if (a == b || ws[a].id == ws[b].id) continue;
                 auto& mb = ws[b].d->world->entities();
                 for (size_t ord = 0; ord < ws[a].d->issued.size(); ++ord) {
+                    ++n_foreign;
                     if (mb.isEntityValid(ws[a].d->issued[ord])) {
                         out << "ORACLE foreign-valid: handle " << ord << " of world " << a << " (id " << ws[a].id
                             << ") is accepted by world " << b << " (id " << ws[b].id << ")\n";
@@ -145,6 +151,8 @@ struct Worlds {
         s.id = s.d->world->id().toInt();
         s.d->world_id = s.id;
         s.last = observe(*s.d);
+        ++n_worlds;
+        max_id = std::max<size_t>(max_id, s.id);
         // live worlds must carry pairwise different ids when this one was numbered automatically
         if (automatic) {
             for (size_t k : live) {
@@ -233,6 +241,7 @@ struct Worlds {
                     s.d->exec({"create", "-"});
                     auto& m = s.d->world->entities();
                     Entity e = s.d->issued.empty() ? Entity{} : s.d->issued.back();
+                    ++n_own;
                     if (!m.isEntityValid(e) || e.worldId().toInt() != s.id) ++bad;
                     dropSlot(ws.size() - 1);
                 }
@@ -291,6 +300,7 @@ struct Worlds {
         auto& m = d.world->entities();
         if (d.issued.size() > before && !m.isLocked()) {
             Entity e = d.issued.back();
+            ++n_own;
             if (!m.isEntityValid(e) || e.worldId().toInt() != ws[cur].id) {
                 out << "ORACLE own-handle-invalid: world " << cur << " (id " << ws[cur].id << ") issued handle " << (d.issued.size() - 1)
                     << " (id=" << e.id().toInt() << " ver=" << e.version().toInt() << " w=" << e.worldId().toInt()
@@ -314,5 +324,7 @@ int main() {
         W.out.str("");
     }
     while (!W.live.empty()) W.dropSlot(W.live.back());
+    std::cout << "stats ops=" << W.n_ops << " worlds=" << W.n_worlds << " max_live=" << W.max_live << " max_id=" << W.max_id
+              << " frame_checks=" << W.n_frame << " foreign_checks=" << W.n_foreign << " own_checks=" << W.n_own << "\n";
     return 0;
 }
